@@ -663,7 +663,7 @@ def narrowread(run, fx, rule='NARROWREAD'):
                         pairs.append((d.get('t'), d['init']))
             for t, rhs in pairs:
                 r = fn.strip_all_casts(rhs)
-                if r['k'] == 'CallExpr' and (r.get('fq') or '').split('<')[0].endswith(('be::read', 'be::peek')):
+                if r['k'] == 'CallExpr' and (r.get('fq') or '').split('<')[0].endswith(('be::read', 'be::peek', 'be::swap')):
                     total += 1
                     wt, wr = int_type((t or '').replace('const ', '')), int_type(r.get('t'))
                     if wt and wr and wt[0] < wr[0]:
@@ -680,7 +680,7 @@ def narrowread(run, fx, rule='NARROWREAD'):
                 for d in e.get('decls', []):
                     if d.get('init') is not None and d.get('dk') == 'Var':
                         r = fn.strip_all_casts(d['init'])
-                        if r['k'] == 'CallExpr' and (r.get('fq') or '').split('<')[0].endswith(('be::read', 'be::peek')):
+                        if r['k'] == 'CallExpr' and (r.get('fq') or '').split('<')[0].endswith(('be::read', 'be::peek', 'be::swap')):
                             wr = int_type(r.get('t'))
                             wt = int_type((d.get('t') or '').replace('const ', ''))
                             if wr and wt and wt[0] >= wr[0]:
@@ -740,6 +740,49 @@ def narrowread(run, fx, rule='NARROWREAD'):
         run.held(rule, 'table fields stored at full width', '', '%d stores of be::read / be::peek results, none into a narrower integer; %d implicit sign-extending widening(s), all tabled' % (total, sx))
 
 
+def pseudosib_exec(run, fx):
+    """FALLBACK, agreement of the two users: the text loop asks Face::findPseudo(c), gr_face_is_char_supported asks
+    Face::chooseSilf(script)->findPseudo(c); a character is supported exactly when it gets a glyph.  Both are interpreted (rules/ordint.py;
+    Silf::findPseudo answers from a per-subtable map the harness supplies) on faces of 0..3 Silf subtables whose pseudo maps differ, for
+    every script value of a small grid: the two answers are the same for every code point."""
+    from . import ordint as O
+    ff, cs = fx.one('graphite2::Face::findPseudo'), fx.one('graphite2::Face::chooseSilf')
+    PF = 'graphite2::Face::'
+    frec = fx.record('graphite2::Face')
+    inst = 'the text loop and gr_face_is_char_supported ask the same sub-table for pseudo-glyphs (interpreted)'
+    cases = 0
+    try:
+        for nsilf in range(0, 4):
+            maps = [{0x100 + k: 40 + k, 0x200: 50 + k} if k else {0x200: 50} for k in range(nsilf)]          # sub-table k > 0 declares a pseudo-glyph of its own
+            silfs = O.Vec([O.Rec({'#silf': k}) for k in range(nsilf)])
+            face = O.Rec()
+            for f in frec['fields']:
+                face[PF + f['n']] = O.Ptr(None) if f.get('ptr') else 0
+            face[PF + 'm_numSilf'] = nsilf
+            face[PF + 'm_silfs'] = O.It(silfs, 0) if nsilf else O.Ptr(None)
+            nat = {'graphite2::Silf::findPseudo': lambda I, f, e, obj, a, maps=maps: maps[obj['#silf']].get(I.rv(a[0]), 0)}
+            for script in (0, 0x6C61746E, 0x20202020):
+                for uid in (0x41, 0x100, 0x101, 0x102, 0x200):
+                    cases += 1
+                    a = O.Interp(fx, natives=nat).call(ff, face, [uid])
+                    sp = O.Interp(fx, natives=nat).call(cs, face, [script])
+                    if isinstance(sp, O.It):
+                        srec = O.Interp(fx, natives=nat).deref_it(sp, cs, {'ln': 0}).load()
+                    elif isinstance(sp, O.Ptr):
+                        srec = sp.rec
+                    else:
+                        raise AnalysisBroken('Face::chooseSilf returns a %s' % type(sp).__name__)
+                    b = maps[srec['#silf']].get(uid, 0) if srec is not None else 0
+                    if a != b:
+                        run.violated('FALLBACK', inst, ff.where(), 'face with %d Silf sub-tables, script %#x, U+%04X: the text loop (Face::findPseudo) maps it to glyph %s, gr_face_is_char_supported '
+                                     '(chooseSilf(script)->findPseudo) to glyph %s -- a character shaped with a glyph is reported unsupported, or the reverse' % (nsilf, script, uid, a, b))
+                        return
+    except (AnalysisBroken, O.Violation) as ex:
+        run.broken('FALLBACK', inst, str(getattr(ex, 'what', ex)), ff.where())
+        return
+    run.held('FALLBACK', inst, ff.where(), '%d abstract executions' % cases)
+
+
 def nextinrange(run, fx):
     """the cmap iterators that fill the cached cmap (CmapSubtable4/12NextCodepoint) answer `the successor of c in the same
     range` only when the range really contains it: `return c + 1` is dominated by a test `end > c` (strict).  With `>=` the
@@ -783,6 +826,7 @@ def run(run):
     lookupfirst(run, fx)
     segsearch(run, fx)
     pseudostore(run, fx)
+    pseudosib_exec(run, fx)
     inst_ = 'format 4 lookup computes the glyph the table gives (interpreted on concrete small tables)'
     f4_ = fx.one('graphite2::TtfUtil::CmapSubtable4Lookup')
     try:
